@@ -539,7 +539,8 @@ def _run_P(res, family, only=None):
             if family == "arrhenius":
                 args = (p1 * per_s, E)
             else:
-                args = (E, p2 * u.joule / u.mol / u.kelvin)
+                # the activation entropy is spelled in the matching unit (J, kJ, cal per mol and kelvin): the same physical value
+                args = (E, (p2 * u.joule / u.mol / u.kelvin).rescale(eu / u.kelvin))
             for T in TL:
                 res.transitions += 1
                 if path == "object":
@@ -590,13 +591,13 @@ def _run_P(res, family, only=None):
                         report("plain;order%d" % order, p1, p2, T, o, (kv * cp, kerr * cp * 2), "as-rate-expression/" + how, dict(order=order))
                 # quantities: rate constant of the right dimension for the order; J/mol and kJ/mol spellings; both backends
                 kvo, kerro = _pref(family, p1, p2, T, "object")
-                for (en, eu), bname in itertools.product(_energy_units()[:2], ("Backend()", "default")):
+                for (en, eu), bname in itertools.product(_energy_units()[:2] if family == "arrhenius" else _energy_units(), ("Backend()", "default")):
                     kunit = per_s / u.molar ** (order - 1)
                     E = ((p1 if family == "eyring" else p2) * u.joule / u.mol).rescale(eu)
                     if family == "arrhenius":
                         par = WithU(p1 * kunit, E)
                     else:
-                        par = WithU(E, p2 * u.joule / u.mol / u.kelvin)
+                        par = WithU(E, (p2 * u.joule / u.mol / u.kelvin).rescale(eu / u.kelvin))
                     Vu = dict({k_: v_ * u.molar for k_, v_ in conc.items()}, temperature=T * u.kelvin)
                     rxn = Reaction(base.reac, base.prod, par)
                     kw = dict(backend=Backend()) if bname == "Backend()" else {}
@@ -848,6 +849,52 @@ def _run_X(res, spec, only_case=None):
             except Exception as ex:
                 obs = _exc_tag(ex)
             report("math/fk", a, T, obs, refs[T], "override(args=None, all keys)", dict(kind="fk"))
+        # ---------------------------- S7: a required named argument that is not supplied is refused, never silently defaulted
+        if spec["nargs_fixed"]:
+            ndef = len(getattr(spec["cls"], "argument_defaults", None) or ())
+            for i in range(nargs - ndef):
+                res.transitions += 1
+                res.evaluations += 1
+                try:
+                    obj = spec["cls"].fk(*keys)
+                    obs = _x_eval(spec, obj, T, "math", order, extra_vars={keys[k]: a[k] for k in range(nargs) if k != i})
+                except Exception as ex:
+                    obs = _exc_tag(ex)
+                if isinstance(obs, str):
+                    res.outcomes["X:missing-named-argument:refused"] += 1
+                else:
+                    res.outcomes["X:missing-named-argument:EVALUATED"] += 1
+                    res.violation("C16|%s|missing-named-argument|evaluated" % name.split("/")[0], "%s.fk(%s) evaluated without a value for %r (argument %d, no default) gives %r instead of an error" % (
+                        name, ", ".join(keys), keys[i], i, obs), dict(layer="X", spec=name, a=list(a), T=T, cfg="math/fk-missing", kind="fk-missing", missing=i), observed=obs, expected="KeyError")
+        # ---------------------------- S8: the temperature supplied as an expression of time (RampedTemp) in a variables dict that
+        # the caller keeps and updates: every evaluation follows the dict as it is, and the dict keeps the expression
+        # (classes that evaluate their parameters through Expr.all_params; Arrhenius / Eyring / EyringHS read
+        # variables['temperature'] as a number and do not take an expression there)
+        if dependsT and "time" not in spec["variables"] and name.split("/")[0] not in ("Arrhenius", "Eyring", "EyringHS"):
+            from chempy.kinetics.rates import RampedTemp
+
+            ramp = RampedTemp([T, 2.0])
+            V = {k: (v if v is not None else None) for k, (v, unit) in spec["variables"].items()}
+            V["temperature"] = ramp
+            V["time"] = 0.0
+            for step, tnow in enumerate((0.0, 50.0, 0.0)):
+                V["time"] = tnow
+                Tnow = T + 2.0 * tnow
+                res.transitions += 1
+                try:
+                    ref = spec["formula"](a, dict(T=Tnow))
+                except RX.OutOfRange:
+                    break
+                try:
+                    obj = spec["cls"](_x_args(spec, a, False))
+                    obs = _tofloat(obj(V, reaction=_rx(order)))
+                except Exception as ex:
+                    obs = _exc_tag(ex)
+                report("math/temperature-as-expression", a, T, obs, ref, "kept-variables-dict step %d" % step, dict(kind="ramp", step=step))
+                if V.get("temperature") is not ramp:
+                    res.violation("C16|%s|callers-variables-modified" % name.split("/")[0], "%s(%r) evaluated with variables['temperature'] = RampedTemp([...]): the caller's dict now holds %r there" % (
+                        name, list(a), V.get("temperature")), dict(layer="X", spec=name, a=list(a), T=T, cfg="math/temperature-as-expression", kind="ramp-dict", step=step), observed=repr(V.get("temperature")), expected="the expression")
+                    V["temperature"] = ramp
     res.sample(dict(layer="X", spec=name, arg_lattice=[list(x) for x in spec["arglat"]], T=list(Ts)), limit=1)
 
 
